@@ -796,7 +796,11 @@ class DcmMetaExtension(Nifti1Extension):
                 for dest_cls in self._repeat_tests[curr_class]:
                     if dest_cls[0] in self._content:
                         dest_mult = self.get_multiplicity(dest_cls)
-                        if is_repeating(values, dest_mult):
+                        #If the multiplicities are the same we are dealing
+                        #with a degenerate case (i.e. a singular time or
+                        #vector dimension). Just change the classification
+                        if (dest_mult == len(values) or
+                            is_repeating(values, dest_mult)):
                             self.get_class_dict(dest_cls)[key] = \
                                 values[:dest_mult]
                             break
